@@ -74,6 +74,10 @@ type specEntry struct {
 	// of configurations meets it (and that family meets only the deep specs and
 	// three small ones), which keeps the table product bounded.
 	deep bool
+	// twice: a spec that describes the same attribute or the same block type more
+	// than once; meets the families of twiceFamilies (quick) / every ordinary
+	// family (thorough).
+	twice bool
 }
 
 func attr(name string, ty cty.Type) *hcldec.AttrSpec { return &hcldec.AttrSpec{Name: name, Type: ty} }
@@ -143,6 +147,9 @@ func specList() []specEntry {
 	for _, s := range list {
 		out = append(out, specEntry{name: s.name, kind: s.kind, node: describe(s.spec)})
 	}
+	for _, s := range twiceList() {
+		out = append(out, specEntry{name: s.name, kind: s.kind, node: describe(s.spec), twice: true})
+	}
 	// block types with 3, 4 and 5 labels: one BlockLabelSpec per label index, label
 	// names consumed by BlockMapSpec / BlockObjectSpec, and mixtures of both
 	labelsObj := func(n int, a hcldec.Spec) hcldec.ObjectSpec {
@@ -166,6 +173,73 @@ func specList() []specEntry {
 	}
 	return out
 }
+
+// twiceList: specs that describe one attribute (or one block type) more than
+// once within the same body. hcldec allows that (both sides of a DefaultSpec,
+// two elements of a TupleSpec / ObjectSpec that read the same item with
+// different types or decoders); the body is still processed with *one* schema,
+// so what the descriptions jointly demand (the attribute is required as soon as
+// one description requires it; every description sees the same item) must not
+// depend on the syntax. All combinations of the Required flags in both visiting
+// orders, equal and differing types, two and three descriptions, at the top
+// level and inside a block body; block types described by two block spec kinds.
+func twiceList() []struct {
+	name, kind string
+	spec       hcldec.Spec
+} {
+	type e = struct {
+		name, kind string
+		spec       hcldec.Spec
+	}
+	req := func(name string, ty cty.Type) *hcldec.AttrSpec {
+		return &hcldec.AttrSpec{Name: name, Type: ty, Required: true}
+	}
+	reqA, reqB, reqStrA, reqNumA := req("a", cty.DynamicPseudoType), req("b", cty.DynamicPseudoType), req("a", cty.String), req("a", cty.Number)
+	def := func(p, d hcldec.Spec) hcldec.Spec { return &hcldec.DefaultSpec{Primary: p, Default: d} }
+	xl := func(nested hcldec.Spec) hcldec.Spec { return &hcldec.BlockListSpec{TypeName: "x", Nested: nested} }
+	lit := &hcldec.LiteralSpec{Value: cty.StringVal("dflt")}
+	return []e{
+		// TupleSpec: the descriptions are visited in element order
+		{"a-tuple-opt-req", "attr-twice", hcldec.TupleSpec{dynA, reqA}},
+		{"a-tuple-req-opt", "attr-twice", hcldec.TupleSpec{reqA, dynA}},
+		{"a-tuple-opt-opt", "attr-twice", hcldec.TupleSpec{dynA, strA}},
+		{"a-tuple-req-req", "attr-twice", hcldec.TupleSpec{reqA, reqStrA}},
+		{"a-tuple-opt-req-opt", "attr-twice", hcldec.TupleSpec{dynA, reqA, strA}},
+		{"a-tuple-str-reqnum", "attr-twice", hcldec.TupleSpec{strA, reqNumA}},
+		{"ab-tuple-cross", "attr-twice", hcldec.TupleSpec{dynA, reqB, dynB, reqA}},
+		// ObjectSpec: the descriptions are visited in map order (either order may occur)
+		{"a-object-opt-req", "attr-twice", hcldec.ObjectSpec{"p": dynA, "q": reqA}},
+		{"a-object-str-reqnum", "attr-twice", hcldec.ObjectSpec{"s": strA, "n": reqNumA}},
+		// DefaultSpec: Primary is visited before Default
+		{"a-default-opt-req", "default-twice", hcldec.ObjectSpec{"a": def(dynA, reqA)}},
+		{"a-default-req-opt", "default-twice", hcldec.ObjectSpec{"a": def(reqA, dynA)}},
+		{"a-default-opt-opt", "default-twice", hcldec.ObjectSpec{"a": def(strA, dynA)}},
+		{"a-default-req-req", "default-twice", hcldec.ObjectSpec{"a": def(reqA, reqStrA)}},
+		{"a-default-chain", "default-twice", hcldec.ObjectSpec{"a": def(dynA, def(reqA, lit))}},
+		{"a-default-bare", "default-twice", def(dynA, reqA)},
+		// across composite kinds, beside another attribute and a block type
+		{"a-tuple-object-default", "attr-twice", hcldec.TupleSpec{hcldec.ObjectSpec{"a": dynA, "x": xl(inner)}, def(dynB, reqA)}},
+		// inside a block body (the nested body is processed with the nested spec's schema)
+		{"x-list-a-opt-req", "nested-attr-twice", hcldec.ObjectSpec{"x": xl(hcldec.TupleSpec{dynA, reqA})}},
+		{"x-list-a-req-opt", "nested-attr-twice", hcldec.ObjectSpec{"x": xl(hcldec.TupleSpec{reqA, dynA})}},
+		{"x-object1-a-default-opt-req", "nested-attr-twice", hcldec.ObjectSpec{"x": &hcldec.BlockObjectSpec{TypeName: "x", LabelNames: []string{"k"}, Nested: hcldec.ObjectSpec{"a": def(dynA, reqA)}}}},
+		// one block type described twice (same label count; the nested specs may differ)
+		{"x-list-set", "block-twice", hcldec.TupleSpec{xl(inner), &hcldec.BlockSetSpec{TypeName: "x", Nested: inner}}},
+		{"x-block-list", "block-twice", hcldec.ObjectSpec{"first": &hcldec.BlockSpec{TypeName: "x", Nested: inner}, "all": xl(inner)}},
+		{"x-reqblock-tuple", "block-twice", hcldec.TupleSpec{&hcldec.BlockSpec{TypeName: "x", Nested: inner, Required: true}, &hcldec.BlockTupleSpec{TypeName: "x", Nested: inner}}},
+		{"x-default-block-reqblock", "block-twice", hcldec.ObjectSpec{"x": def(&hcldec.BlockSpec{TypeName: "x", Nested: inner}, &hcldec.BlockSpec{TypeName: "x", Nested: inner, Required: true})}},
+		{"x-list-list-a-opt-req", "block-twice", hcldec.TupleSpec{xl(hcldec.ObjectSpec{"a": dynA}), xl(hcldec.ObjectSpec{"a": reqA})}},
+		{"x-list-list-a-req-opt", "block-twice", hcldec.TupleSpec{xl(hcldec.ObjectSpec{"a": reqA}), xl(hcldec.ObjectSpec{"a": dynA})}},
+		{"x-map1-object1", "block-twice", hcldec.TupleSpec{&hcldec.BlockMapSpec{TypeName: "x", LabelNames: []string{"k"}, Nested: hcldec.ObjectSpec{"a": strA}}, &hcldec.BlockObjectSpec{TypeName: "x", LabelNames: []string{"k"}, Nested: inner}}},
+		{"x-list-label1-object1", "block-twice", hcldec.TupleSpec{xl(hcldec.ObjectSpec{"a": dynA, "k": lab0}), &hcldec.BlockObjectSpec{TypeName: "x", LabelNames: []string{"k"}, Nested: hcldec.ObjectSpec{"a": reqA}}}},
+		{"x-attrs-attrs", "block-twice", hcldec.TupleSpec{&hcldec.BlockAttrsSpec{TypeName: "x", ElementType: cty.String}, &hcldec.BlockAttrsSpec{TypeName: "x", ElementType: cty.Number, Required: true}}},
+	}
+}
+
+// twiceFamilies: the configuration families the twice specs meet in the quick
+// tier (top-level attributes defined / not defined, literals of every type,
+// blocks x with 0 and 1 labels, nesting, kind clashes).
+var twiceFamilies = map[string]bool{"empty": true, "lit": true, "defs": true, "clash": true, "nest": true, "blk00": true, "blk00a": true, "blk10": true, "blk10a": true}
 
 // deepAlso: the ordinary specs the deep family meets too (label-count mismatches).
 var deepAlso = map[string]bool{"x-list": true, "x-map2": true, "x-list-label2": true}
@@ -209,9 +283,28 @@ func describe(spec hcldec.Spec) *specNode {
 		w(nested)
 		return max + 1
 	}
+	// A block type may be described more than once: the schema names it once
+	// and each description decodes the blocks with its own nested spec. The
+	// reference reads the nested body with the union of the nested specs'
+	// schemata (an error under the union is an error under one of them). Only
+	// descriptions with the same number of labels and the same processing mode
+	// are supported (which header schema wins otherwise is not specified).
+	nestedOf := map[string][]hcldec.Spec{}
+	labelsOf := map[string]int{}
 	block := func(typ string, own int, nested hcldec.Spec) {
-		n.schema.Blocks = append(n.schema.Blocks, refbody.BlockS{Type: typ, Labels: own + countLabels(nested)})
-		n.children[typ] = &child{node: describe(nested)}
+		labels := own + countLabels(nested)
+		if prev, ok := nestedOf[typ]; ok {
+			if labelsOf[typ] != labels {
+				panic(fmt.Sprintf("describe: block type %q described with %d and %d labels", typ, labelsOf[typ], labels))
+			}
+			nestedOf[typ] = append(prev, nested)
+			return
+		}
+		if _, ok := n.children[typ]; ok {
+			panic(fmt.Sprintf("describe: block type %q described in two processing modes", typ))
+		}
+		n.schema.Blocks = append(n.schema.Blocks, refbody.BlockS{Type: typ, Labels: labels})
+		nestedOf[typ], labelsOf[typ] = []hcldec.Spec{nested}, labels
 	}
 	walk = func(s hcldec.Spec) {
 		switch t := s.(type) {
@@ -229,6 +322,14 @@ func describe(spec hcldec.Spec) *specNode {
 				walk(c)
 			}
 		case *hcldec.AttrSpec:
+			// An attribute may be described more than once; it is one schema
+			// element, required as soon as one description requires it.
+			for i := range n.schema.Attrs {
+				if n.schema.Attrs[i].Name == t.Name {
+					n.schema.Attrs[i].Required = n.schema.Attrs[i].Required || t.Required
+					return
+				}
+			}
 			n.schema.Attrs = append(n.schema.Attrs, refbody.AttrS{Name: t.Name, Required: t.Required})
 		case *hcldec.LiteralSpec, *hcldec.BlockLabelSpec:
 		case *hcldec.DefaultSpec:
@@ -247,6 +348,12 @@ func describe(spec hcldec.Spec) *specNode {
 		case *hcldec.BlockObjectSpec:
 			block(t.TypeName, len(t.LabelNames), t.Nested)
 		case *hcldec.BlockAttrsSpec:
+			if _, ok := nestedOf[t.TypeName]; ok {
+				panic(fmt.Sprintf("describe: block type %q described in two processing modes", t.TypeName))
+			}
+			if _, ok := n.children[t.TypeName]; ok {
+				return // described twice in dynamic-attributes mode
+			}
 			n.schema.Blocks = append(n.schema.Blocks, refbody.BlockS{Type: t.TypeName})
 			n.children[t.TypeName] = &child{justAttrs: true}
 		default:
@@ -254,25 +361,35 @@ func describe(spec hcldec.Spec) *specNode {
 		}
 	}
 	walk(spec)
-	// cross-check against the schema the real side is given
+	for typ, ns := range nestedOf {
+		if len(ns) == 1 {
+			n.children[typ] = &child{node: describe(ns[0])}
+		} else {
+			n.children[typ] = &child{node: describe(hcldec.TupleSpec(ns))}
+		}
+	}
+	// cross-check against the schema the real side is given: the same names, an
+	// attribute required iff some entry of that name is required. (How often
+	// ImpliedSchema lists a name is not the harness's business: whatever it
+	// lists is what both bodies are given, and they must agree on it.)
 	got := map[string]int{}
 	for _, a := range n.hclSchema.Attributes {
-		k := "A:" + a.Name
-		if a.Required {
-			k += ":req"
+		if got["A:"+a.Name] == 0 {
+			got["A:"+a.Name] = 1
 		}
-		got[k] = 1 // (ImpliedSchema lists an attribute under a DefaultSpec twice; compared as a set)
+		if a.Required {
+			got["A:"+a.Name] = 2
+		}
 	}
 	for _, b := range n.hclSchema.Blocks {
 		got[fmt.Sprintf("B:%s:%d", b.Type, len(b.LabelNames))] = 1
 	}
 	want := map[string]int{}
 	for _, a := range n.schema.Attrs {
-		k := "A:" + a.Name
+		want["A:"+a.Name] = 1
 		if a.Required {
-			k += ":req"
+			want["A:"+a.Name] = 2
 		}
-		want[k] = 1
 	}
 	for _, b := range n.schema.Blocks {
 		want[fmt.Sprintf("B:%s:%d", b.Type, b.Labels)] = 1
@@ -821,6 +938,9 @@ func gen(tier string, emit func(engine.Case) bool) {
 			} else if se.deep {
 				continue
 			}
+			if se.twice && !thorough && !twiceFamilies[fam] {
+				continue
+			}
 			d := Data{Conf: conf, Spec: se.name, Degenerate: []string{"x", "y"}, MaxCut: maxCut, DecorProd: thorough && conf.Size() <= 4, Uniform: fam == "deep", Native: absconf.Native(conf)}
 			if !emit(engine.Case{ID: fmt.Sprintf("%s/%04d/%s", fam, n, se.name), Data: d}) {
 				return false
@@ -847,6 +967,25 @@ func gen(tier string, emit func(engine.Case) bool) {
 		}
 		if !emitConf("lit", absconf.Body{B("x", lbl("k"), A("a", v))}) {
 			return
+		}
+	}
+	// F1b ("defs"): which of the attributes a, b a body defines, at the top level and in a block body
+	for _, ab := range []absconf.Body{
+		{A("b", one)},
+		{A("a", one), A("b", numA("2"))},
+		{A("b", one), A("a", absconf.Null())},
+	} {
+		for _, conf := range []absconf.Body{
+			ab,
+			append(append(absconf.Body{}, ab...), B("x", nil)),
+			{B("x", nil, ab...)},
+			{B("x", lbl("k"), ab...)},
+			{B("x", nil, ab...), B("x", nil)},
+			{B("x", lbl("k")), B("x", lbl("m"), ab...)},
+		} {
+			if !emitConf("defs", conf) {
+				return
+			}
 		}
 	}
 	// F2: block structures, all label arities, with and without an interleaved attribute
